@@ -278,7 +278,11 @@ def run(cx):
         for m in st:
             tgt = simplify(dag.place(m.data['pl'], m.bb, m.idx))
             val = simplify(dag.rvalue(m.data['rv'], m.bb, m.idx))
-            vals[b.local_name(m.root)] = (tgt, val)
+            # classified by what is stored, not by the name of the array: rows of V^T, or singular values
+            if find('(field v_t _)', val) is not None:
+                vals['basis'] = (tgt, val)
+            elif find('(field singular_values _)', val) is not None:
+                vals['scales'] = (tgt, val)
         # row i of v_t -> basis[i]; singular_values[i] -> scales[i] with the same i
         eb = match('(index (unwrap (field v_t _)) (agg tuple (0 $i) (1 $j)))', vals.get('basis', (None, ('x',)))[1]) if 'basis' in vals else None
         tb = match('(index (index _ $i) $j)', vals['basis'][0]) if 'basis' in vals else None
